@@ -155,22 +155,17 @@ Qed.
 Theorem push_position_ref n p : push_position n p = ref_position n (Some p).
 Proof. reflexivity. Qed.
 
-Theorem push_slice_ref arr n :
-  - two63 < n < two63 -> len arr < two63 ->
-  push_slice arr n = Ok (ref_slice (Some n) arr).
+Theorem push_slice_ref arr n : push_slice arr n = Ok (ref_slice (Some n) arr).
 Proof.
-  intros Hn Hl. unfold push_slice, ref_slice. pose proof (len_nonneg arr) as L0.
+  unfold push_slice, ref_slice. pose proof (len_nonneg arr) as L0.
   destruct (Z.eqb_spec n 0) as [->|N0]; [reflexivity|].
   destruct (Z.ltb_spec 0 n).
   - destruct (Z.leb_spec 0 n); [|lia]. unfold take.
     destruct (Z.ltb_spec n (len arr)); [reflexivity|].
     rewrite firstn_all2; [reflexivity|]. unfold len in *. lia.
   - destruct (Z.leb_spec 0 n); [lia|].
-    rewrite (wrap64_id (- n)) by (unfold in64, two63 in *; lia).
-    destruct (Z.ltb_spec (- n) (len arr)).
-    + rewrite (wrap64_id (len arr - - n)) by (unfold in64, two63 in *; lia).
-      destruct (Z.ltb_spec (len arr - - n) 0); [lia|]. destruct (Z.ltb_spec (len arr) (len arr - - n)); [lia|].
-      cbn [orb]. unfold drop. f_equal. f_equal. unfold len in *. lia.
+    destruct (Z.ltb_spec (- len arr) n).
+    + unfold drop. f_equal. f_equal. unfold len in *. lia.
     + replace (List.length arr - Z.to_nat (- n))%nat with O by (unfold len in *; lia). reflexivity.
 Qed.
 
@@ -259,7 +254,6 @@ Qed.
 Open Scope string_scope.
 Theorem apply_push_ref d ch ps each p dir n arr d' ch' :
   canon_path (split_path ps) -> Get d ps = VArr arr ->
-  - two63 < n < two63 -> len arr + len each < two63 ->
   apply_push (d, ch) ps
     (VDoc [("$each", VArr each); ("$position", VInt64 p); ("$sort", VInt32 dir); ("$slice", VInt64 n)]) = Ok (d', ch') ->
   exists sorted,
@@ -267,18 +261,14 @@ Theorem apply_push_ref d ch ps each p dir n arr d' ch' :
     Get d' ps = VArr (ref_slice (Some n) sorted) /\
     ch' = (ch ++ [(ps, VArr (ref_slice (Some n) sorted))])%list.
 Proof.
-  intros C G Hn Hl H. unfold apply_push in H. cbn [fst snd] in H.
+  intros C G H. unfold apply_push in H. cbn [fst snd] in H.
   change (has_key "$each" [("$each", VArr each); ("$position", VInt64 p); ("$sort", VInt32 dir); ("$slice", VInt64 n)]) with true in H.
   cbn [push_modifiers String.eqb Ascii.eqb Bool.eqb pm_values pm_position pm_sort pm_slice bind] in H.
-  rewrite G in H. cbn [bind int_modifier pm_values pm_position pm_sort pm_slice] in H.
+  rewrite G in H. cbn [bind int_modifier pm_values pm_position pm_sort pm_slice is_missing] in H.
   rewrite (insert_at_ref arr each (Some p)) in H. cbn [push_sort] in H.
   destruct (sort_direct (ref_insert (Some p) each arr) dir) as [sorted| | | |] eqn:S; cbn [bind] in H; try discriminate.
   destruct (sort_direct_ref _ _ _ S) as [_ [P St]].
-  assert (Ls : len sorted < two63).
-  { unfold len. rewrite <- (Permutation_length P). unfold ref_insert. rewrite !app_length.
-    pose proof (firstn_skipn (Z.to_nat (ref_position (Z.of_nat (List.length arr)) (Some p))) arr) as FS.
-    apply (f_equal (@List.length value)) in FS. rewrite app_length in FS. unfold len in Hl. lia. }
-  rewrite (push_slice_ref sorted n Hn Ls) in H. cbn [bind] in H.
+  rewrite (push_slice_ref sorted n) in H. cbn [bind] in H.
   exists sorted. split; [split; assumption|].
   destruct (Put d ps (VArr (ref_slice (Some n) sorted)) false) as [[old d1]| | | |] eqn:E; cbn [bind] in H; try discriminate.
   cbn [is_some negb andb] in H.
